@@ -75,6 +75,36 @@ pub trait Write {
         Ok(())
     }
 
+    /// Same algorithm as `std::io::Write::write_fmt` (adapter over `write_all`).
+    fn write_fmt(&mut self, args: std::fmt::Arguments<'_>) -> Result<()> {
+        struct Adapter<'a, T: Write + ?Sized> {
+            inner: &'a mut T,
+            error: Result<()>,
+        }
+        impl<T: Write + ?Sized> std::fmt::Write for Adapter<'_, T> {
+            fn write_str(&mut self, s: &str) -> std::fmt::Result {
+                match self.inner.write_all(s.as_bytes()) {
+                    Ok(()) => Ok(()),
+                    Err(e) => {
+                        self.error = Err(e);
+                        Err(std::fmt::Error)
+                    }
+                }
+            }
+        }
+        let mut output = Adapter { inner: self, error: Ok(()) };
+        match std::fmt::write(&mut output, args) {
+            Ok(()) => Ok(()),
+            Err(..) => {
+                if output.error.is_err() {
+                    output.error
+                } else {
+                    Err(Error::new(ErrorKind::Other, "formatter error"))
+                }
+            }
+        }
+    }
+
     fn by_ref(&mut self) -> &mut Self
     where
         Self: Sized,
